@@ -7,6 +7,8 @@ import hashlib
 import json
 import time
 
+import os
+
 import numpy as np
 
 from common import (real_solve, real_solve_canon, solve_op, run_driver, parse_solve_answer, compare_solve,
@@ -24,9 +26,9 @@ def fail(key, what, case, expected, observed, tol):
     return dict(key=key, what=what, input=case, expected=expected, observed=observed, tolerance=tol)
 
 
-def solve3(case):
+def solve3(case, cache=None):
     """real solver -> (conc, flx) as (nlv, ny, nx) float64 arrays + Z"""
-    grid, conc, flx = real_solve(case)
+    grid, conc, flx = real_solve(case, cache=cache)
     q = np.asarray(case["q"])
     ny, nx = q.shape
     lv = case["levels"]
@@ -210,8 +212,26 @@ def o_bg_offset(case):
     """background adds a uniform offset to conc and never changes flx"""
     base = {k: v for k, v in case.items() if k != "par"}
     c2 = case["par"]["bg2"]
-    r1 = solve3(base)
-    r2 = solve3(dict(base, bg=c2))
+    if case["par"].get("shared_cache") and base["footprint"]:
+        # the same two requests through ONE result cache (the documented way to run many towers / steps): the linearity
+        # statement is about what the solver returns, with or without a cache attached
+        import shutil
+        import tempfile
+        from bldfm.cache import GreensFunctionCache
+        d = tempfile.mkdtemp(prefix="c04cache-", dir=os.getcwd())
+        try:
+            cache = GreensFunctionCache(d)
+            r1 = solve3(base, cache=cache)
+            r2 = solve3(dict(base, bg=c2), cache=cache)
+            r1b = solve3(base, cache=cache)
+        finally:
+            shutil.rmtree(d, ignore_errors=True)
+        if not (np.array_equal(r1[0], r1b[0]) and np.array_equal(r1[1], r1b[1])):
+            return fail("C04/bg-offset/cache-repeat", "repeating a footprint request through a shared cache after a request with another background changes the result",
+                        None, "identical", relerr(r1[0], r1b[0]), 0)
+    else:
+        r1 = solve3(base)
+        r2 = solve3(dict(base, bg=c2))
     tol = 1e-11 if case["precision"] == "double" else 3e-5
     if case["precision"] == "double" and not np.array_equal(r1[1], r2[1]):
         e = relerr(r1[1], r2[1])
@@ -256,6 +276,8 @@ def run_C04(rng, tier, deep):
                         a=float(rng.normal() * 3), b=float(rng.normal() * 3), bg2=float(rng.normal() * 5))
         run_oracle(st, o_linearity, c)
         if rng.random() < 0.7:
+            if c["footprint"] and rng.random() < 0.5:
+                c["par"]["shared_cache"] = True
             run_oracle(st, o_bg_offset, c)
         if rng.random() < 0.5:
             run_oracle(st, o_fp_indep_q, c)
@@ -268,7 +290,7 @@ def run_C04(rng, tier, deep):
         run_oracle(st, o_homogeneity, c)
     return finish(st, "random structured solver requests (sizes 2..8, halo none/zero/commensurate/incommensurate, levels scalar/asc/shuffled/repeated/top, "
                   "uniform/varying profiles, both precisions, both modes, analytic/numeric); distinct = distinct canonical request; "
-                  "oracle: three real solves per linearity case with sign-changing sources", deep, TOL)
+                  "oracle: three real solves per linearity case with sign-changing sources; background offset also through a shared result cache (footprint mode)", deep, TOL)
 
 
 # ------------------------------------------------------------ shared helpers
@@ -656,11 +678,17 @@ def o_recentre(case):
     ny, nx = base["q"].shape
     dx, dy = base["domain"][0] / nx, base["domain"][1] / ny
     a = solve3(dict(base, meas_pt=(0.0, 0.0)))
-    b = solve3(dict(base, meas_pt=(im * dx, jm * dy)))
+    pt = (im * dx, jm * dy)
+    image = par.get("image")
+    if image:
+        # a periodic image of the origin cell, given EXACTLY as whole multiples of the (halo = 0) period: a non-zero
+        # measurement point, so the output is re-centred on the origin cell
+        pt = (image[0] * base["domain"][0], image[1] * base["domain"][1])
+    b = solve3(dict(base, meas_pt=pt))
     tol = 1e-9 if base["precision"] == "double" else 3e-5
     for name, k in (("conc", 0), ("flx", 1)):
         sc = max(float(np.max(np.abs(a[k]))), 1e-300)
-        if im == 0 and jm == 0:
+        if im == 0 and jm == 0 and not image:
             if not relerr(a[k], b[k]) <= tol:
                 return fail("C06/recentre/origin", "a zero measurement point changed the output", None, "equal", relerr(a[k], b[k]), tol)
             continue
@@ -738,13 +766,18 @@ def run_C06(rng, tier, deep):
         c2["par"] = dict(im=im, jm=jm)
         if rng.random() < 0.4:
             c2["halo"] = 0.0
+        if rng.random() < 0.2:
+            img = [int(rng.integers(-1, 3)), int(rng.integers(-1, 3))]
+            if img != [0, 0]:
+                c2["par"] = dict(im=0, jm=0, image=img)
+                c2["halo"] = 0.0
         run_oracle(st, o_recentre, c2)
         c3 = random_case(rng)
         ny3, nx3 = c3["q"].shape
         c3["par"] = dict(k=int(rng.integers(-nx3, nx3 + 1)), m=int(rng.integers(-ny3, ny3 + 1)))
         run_oracle(st, o_recentre_any, c3)
     return finish(st, "random requests with on-grid towers; oracles: np.roll of the source / of the tower position (incl. wrap-around, shifts in [-n, 2n)), "
-                  "point reflection against a unit-source dispersion run, re-centring value and full periodic roll (halo=0)", deep, TOL)
+                  "point reflection against a unit-source dispersion run, re-centring value and full periodic roll (halo=0), measurement points that are exact periodic images of the origin", deep, TOL)
 
 
 # ------------------------------------------------------------ C07 symmetries
@@ -1096,7 +1129,11 @@ def profile_family(par):
         x = z / L
         phi = np.where(x > 0, 1 + 5 * x, (1 - 16 * np.minimum(x, 0.0)) ** -0.5)
         return 0.4 * k0 * z / phi + 0.02 * k0
-    return (lambda z: absu(z) * np.cos(wd), lambda z: absu(z) * np.sin(wd),
+    veer = par.get("veer", 0.0)       # the wind direction turns linearly with height by `veer` radians over the column
+
+    def wdir(z):
+        return wd + veer * (z - z0) / (H - z0)
+    return (lambda z: absu(z) * np.cos(wdir(z)), lambda z: absu(z) * np.sin(wdir(z)),
             lambda z: ax * K(z), lambda z: ay * K(z), K)
 
 
@@ -1211,7 +1248,8 @@ def conv_par(rng):
                 ay=float(rng.uniform(0.5, 2)), k0=float(rng.uniform(0.3, 2.0)), L=float(rng.choice([-30.0, -100.0, 80.0, 400.0])),
                 pw=float(rng.uniform(0.1, 0.4)), pk=float(rng.uniform(0.5, 1.2)), nx=nx, ny=ny,
                 domain=[xmx, float(xmx * rng.uniform(0.6, 1.5))], qseed=int(rng.integers(1 << 30)),
-                n0=int(rng.choice([8, 12, 16])), gamma=float(rng.choice([1.0, 1.5, 2.0])), out_frac=float(rng.choice([0.25, 0.5, 0.75])))
+                n0=int(rng.choice([8, 12, 16])), gamma=float(rng.choice([1.0, 1.5, 2.0])), out_frac=float(rng.choice([0.25, 0.5, 0.75])),
+                veer=float(rng.choice([0.0, 1.0]) * rng.uniform(-1.0, 1.0)))
 
 
 def _load_corpus(name):
@@ -1242,4 +1280,4 @@ def run_C01(rng, tier, deep):
         run_oracle(st, o_convergence, conv_par(rng))
     return finish(st, "correspondence on height-dependent profiles; oracle: per-mode transfer functions fft2(out)/fft2(src) at n, 4n, 16n layers "
                   "against an independent Riccati integration of the exact BVP (scipy DOP853, rtol 1e-11) for log/power wind x linear/power/MOST "
-                  "diffusivity x anisotropy x wind angle x uniform/stretched grids, resolved components only", deep, TOL)
+                  "diffusivity x anisotropy x wind angle x wind veering with height x uniform/stretched grids, resolved components only", deep, TOL)
